@@ -61,6 +61,12 @@ def build(case):
 
     offs = offsets_of(case)
     infos, rops, coros = [], [], []
+    # callers like SkyTemple hand over their own op objects (a subclass of SsbOperation) with one opcode object shared
+    # by all ops of that opcode; half of the cases are built that way
+    op_cls = D.SsbOperation
+    opcodes: dict = {}
+    if case.get("caller_style", case.get("name_table")):
+        op_cls = _caller_op_class()
     for r_i, r in enumerate(case["routines"]):
         t = D.SsbRoutineType[r["type"]]
         if r["type"] == "COROUTINE":
@@ -78,7 +84,11 @@ def build(case):
             ps = [build_param(p) for p in params]
             if tgt is not None:
                 ps.append(offs[tgt[0]][tgt[1]])
-            ops.append(D.SsbOperation(offs[r_i][i], D.SsbOpCode(-1, name), ps))
+            if op_cls is D.SsbOperation:
+                ops.append(D.SsbOperation(offs[r_i][i], D.SsbOpCode(-1, name), ps))
+            else:
+                oc = opcodes.setdefault(name, D.SsbOpCode(-1, name))
+                ops.append(op_cls(offs[r_i][i], oc, ps))
         rops.append(ops)
     if case.get("name_table"):
         # callers hand the decompilers the game's whole table of common-routine names (id -> name), not only the
@@ -86,6 +96,24 @@ def build(case):
         have = {c.id for c in coros}
         coros += [D.SsbCoroutine(r_i, f"COMMON_{r_i}") for r_i in range(len(case["routines"]) + 2) if r_i not in have]
     return infos, rops, coros
+
+
+_CALLER_OP = []
+
+
+def _caller_op_class():
+    if not _CALLER_OP:
+        from explorerscript.ssb_converting import ssb_data_types as D
+
+        class CallerSsbOperation(D.SsbOperation):
+            """an application's own operation class (carries something of its own)"""
+
+            def __init__(self, offset, op_code, params):
+                super().__init__(offset, op_code, params)
+                self.app_data = None
+
+        _CALLER_OP.append(CallerSsbOperation)
+    return _CALLER_OP[0]
 
 
 def routine_table(case):
